@@ -10,7 +10,7 @@ from concurrent.futures import ThreadPoolExecutor
 
 VERIF = os.path.dirname(os.path.dirname(os.path.abspath(__file__)))
 REPO = os.environ.get('REPO', '/repo')
-BUILD_ROOT = os.path.join(VERIF, '.build')
+BUILD_ROOT = os.environ.get('VERIF_BUILD', os.path.join(VERIF, '.build'))
 
 RENAMES = ['-Dmalloc=hxw_malloc', '-Dcalloc=hxw_calloc', '-Drealloc=hxw_realloc', '-Dfree=hxw_free',
            '-Dstrdup=hxw_strdup', '-DinflateInit2_=hxw_inflateInit2_', '-Dgettimeofday=hxw_gettimeofday']
@@ -37,6 +37,8 @@ PROGRAMS = {
 EXTRA_PROGRAMS = {}   # filled by other modules: name -> (sources, extra cflags, extra libs)
 
 AUTO_GEN = """#define HAVE_DLFCN_H 1
+#define HAVE_ICONV 1
+#define ICONV_CONST
 #define HAVE_INTTYPES_H 1
 #define HAVE_LIBZ 1
 #define HAVE_STDINT_H 1
